@@ -73,8 +73,10 @@ static int include_next_idx;
 static Token *preprocess2(Token *tok);
 static Macro *find_macro(Token *tok);
 
+// A "#" that is the result of a macro expansion never starts a
+// directive, even if it is the first token of a line (C11 6.10.3.4p3).
 static bool is_hash(Token *tok) {
-  return tok->at_bol && equal(tok, "#");
+  return tok->at_bol && equal(tok, "#") && !tok->origin;
 }
 
 // Some preprocessor directives such as #include allow extraneous
